@@ -73,6 +73,32 @@ class SpecCtx:
         if not self.branch(cond):
             raise SpecUnspecified()
 
+    def lemma(self, name, *terms):
+        """instantiate a PROVED arithmetic lemma schema (pyvc.lemmas) with the given
+        terms; the schema is proved by the solver once per process before its first use,
+        an unproved schema is never assumed.  No-op in concrete mode."""
+        if self.ctx is None:
+            return
+        from . import lemmas
+
+        inst = lemmas.instance(name, [sym.to_z3(sym.to_int(t)) for t in terms])
+        self.ctx.solver.add(inst)
+        self.ctx.axioms_used.add("lemma:" + name)
+
+    def pow2_facts(self, *exponents, products=()):
+        """proof hints about pow2 (true of 2**n): ordering / constant-offset relations
+        between the given exponent terms and P(a+b) == P(a)*P(b) for the given pairs"""
+        if self.ctx is None:
+            return
+        for e in exponents:
+            e = sym.simp(sym.to_int(e))
+            if not isinstance(e, int):
+                self.ctx.note_pow2(sym.to_z3(e), 1)
+        for a, b in products:
+            a, b = sym.to_z3(sym.to_int(a)), sym.to_z3(sym.to_int(b))
+            self.ctx.solver.add(z3.Implies(z3.And(a >= 0, b >= 0), sym.P2(a + b) == sym.P2(a) * sym.P2(b)))
+            self.ctx.axioms_used.add("pow2-ground")
+
 
 class Effect:
     """spec outcome with post-state of mutated arguments"""
